@@ -26,7 +26,7 @@ func (g *Gen) refAssume(t types.Type, term string, h *Heap, guard string) {
 		g.vc.AssumeAt(guard, g.model.allocatedBefore(term, g.model.allocNow(h)), "")
 	}
 	if _, ok := t.Underlying().(*types.Slice); ok {
-		g.vc.AssumeAt(guard, g.model.wfSlice(term), "slice value from the program state is well-formed")
+		g.vc.AssumeAt(guard, And(g.model.wfSlice(term), g.model.allocatedBefore(g.model.slBase(term), g.model.allocNow(h))), "slice value from the program state is well-formed and its array exists")
 	}
 }
 
@@ -346,14 +346,14 @@ func (g *Gen) binop(x *ssa.BinOp, guard string) {
 		g.vc.ensureStrBase()
 		switch x.Op {
 		case token.ADD:
-			g.defVal(x, App("str.cat", a, b))
+			g.defVal(x, App("scat", a, b))
 		case token.EQL:
 			g.defVal(x, Eq(a, b))
 		case token.NEQ:
 			g.defVal(x, Not(Eq(a, b)))
 		default:
-			lt := g.uninterp("str.lt", []string{a, b}, []Sort{SStr, SStr}, SBool)
-			gt := g.uninterp("str.lt", []string{b, a}, []Sort{SStr, SStr}, SBool)
+			lt := g.uninterp("slt", []string{a, b}, []Sort{SStr, SStr}, SBool)
+			gt := g.uninterp("slt", []string{b, a}, []Sort{SStr, SStr}, SBool)
 			switch x.Op {
 			case token.LSS:
 				g.defVal(x, lt)
@@ -505,16 +505,16 @@ func (g *Gen) sliceOp(x *ssa.Slice, h *Heap, guard string) *Heap {
 		g.setVal(x, s)
 	case *types.Basic: // string
 		g.vc.ensureStrBase()
-		lo, hi := "0", App("str.len", sv)
+		lo, hi := "0", App("slen", sv)
 		if x.Low != nil {
 			lo = g.val(x.Low)
 		}
 		if x.High != nil {
 			hi = g.val(x.High)
 		}
-		g.nopanic("slice", guard, And(App("<=", "0", lo), App("<=", lo, hi), App("<=", hi, App("str.len", sv))), x.Pos(), "string slice bounds")
-		r := g.defVal(x, g.uninterp("str.sub", []string{sv, lo, hi}, []Sort{SStr, SInt, SInt}, SStr))
-		g.vc.AssumeAt(guard, Eq(App("str.len", r), App("-", hi, lo)), "")
+		g.nopanic("slice", guard, And(App("<=", "0", lo), App("<=", lo, hi), App("<=", hi, App("slen", sv))), x.Pos(), "string slice bounds")
+		r := g.defVal(x, g.uninterp("ssub", []string{sv, lo, hi}, []Sort{SStr, SInt, SInt}, SStr))
+		g.vc.AssumeAt(guard, Eq(App("slen", r), App("-", hi, lo)), "")
 	case *types.Pointer: // *array
 		at := u.Elem().Underlying().(*types.Array)
 		n := fmt.Sprint(at.Len())
@@ -669,7 +669,12 @@ func (g *Gen) recvEffects(ch string, h *Heap, cond string) *Heap {
 	}
 	g.vc.Declare("U.timerDur", []Sort{SInt}, SInt)
 	cur := h.Get("G.slept", SInt)
-	return h.Set("G.slept", SInt, Ite(cond, App("+", cur, App("U.timerDur", ch)), cur))
+	h = h.Set("G.slept", SInt, Ite(cond, App("+", cur, App("U.timerDur", ch)), cur))
+	if _, ok := g.specs.Ghosts["lastWait"]; ok {
+		lw := h.Get("G.lastWait", SInt)
+		h = h.Set("G.lastWait", SInt, Ite(cond, App("U.timerDur", ch), lw))
+	}
+	return h
 }
 
 func (g *Gen) chanRecvFacts(ch string, h *Heap, guard string) {
